@@ -648,3 +648,9 @@ func init() {
 		What:   "real StreamUnderlay.onOpenSessionRequest for a LATER session of an already authenticated TCP connection (the segment carries no pending authentication): the session created carries the connection user's policy snapshot with the user's own quotas - attribution and quota hold for every session multiplexed on the connection, not only the first",
 		Bounds: "one later session, any non-zero id, one quota with arbitrary allowance", Outside: "the session's input/output goroutines are not started (go statements skipped); B-tree model"})
 }
+
+func init() {
+	reg("C14", HarnessDef{ID: "H14.4", Spec: HarnessSpec{Name: "vH_C14_mtu_plumbing", Pkg: "pkg/protocol", LoopBound: 8, TimeoutS: 60, Par: 2},
+		What:   "MTU plumbing: NewUnderlayProperties and newBaseUnderlay report exactly the MTU they were configured with, for every supported value incl. the boundaries 1280 and 1500 (the fragment / padding arithmetic of H14.1 and the datagram bound of H14.2 are stated in terms of that number)",
+		Bounds: "MTU 1280..1500, both transports", Outside: "how the CLI / appctl layers obtain the number from the configuration"})
+}
